@@ -466,12 +466,20 @@ def prune_dataflow_cache(world: World):
     if not world.use_cache:
         return
     min_cache_time = min(s.last_step.time for s in world.sims.values())
+    # A step at time t reads the newest entry at or before t minus the
+    # connection's time shift, so that entry must survive as well.
+    max_shift: Dict[SimRunner, int] = {}
+    for sim in world.sims.values():
+        for src_sim, delay in sim.pulled_inputs:
+            max_shift[src_sim] = max(max_shift.get(src_sim, 0), delay.tiers[0])
     for sim in world.sims.values():
         if sim.outputs:
+            needed = min_cache_time - max_shift.get(sim, 0)
+            keep_from = max((t for t in sim.outputs if t <= needed), default=needed)
             sim.outputs = {
                 time: cache
                 for time, cache in sim.outputs.items()
-                if time >= min_cache_time
+                if time >= keep_from
             }
 
 
